@@ -57,6 +57,14 @@ class Check:
             if getattr(r, "cmd", None) and len(self.checker_cmds) < 6:
                 self.checker_cmds.append(r.cmd)
 
+    def budget(self, name, limit):
+        """True for the first `limit` calls with this name (expensive optional stages)"""
+        k = self.notes.get("budget_" + name, 0)
+        if k >= limit:
+            return False
+        self.notes["budget_" + name] = k + 1
+        return True
+
     def count(self, n=1):
         self.evaluations += n
 
